@@ -2,7 +2,6 @@
 //! (FromDeb822 / ToDeb822).  Shared by C02 (totality on typed documents), C16 (derived
 //! conversions) and C20 (typed lossy documents).  The tables are in typed_tables.rs.
 
-use deb822_lossless::convert::Deb822LikeParagraph;
 use deb822_lossless::lossy;
 use deb822_lossless::{FromDeb822Paragraph, Paragraph, ToDeb822Paragraph};
 use std::str::FromStr;
